@@ -276,11 +276,16 @@ class OrderManager:
         pair_info = self._ctx.config.get_pair_info(pair)
 
         # For the base amount we truncate instead of rounding to avoid exceeding available liquidity.
+        quote_amount = balance_updates.get(pair.quote_symbol)
         if (base_amount := balance_updates.get(pair.base_symbol)) is not None:
-            balance_updates[pair.base_symbol] = core_helpers.truncate_decimal(base_amount, pair_info.base_precision)
+            truncated_base_amount = core_helpers.truncate_decimal(base_amount, pair_info.base_precision)
+            balance_updates[pair.base_symbol] = truncated_base_amount
+            # The quote amount was calculated for the original base amount. Adjust it so the price doesn't change.
+            if quote_amount is not None and truncated_base_amount != base_amount:
+                quote_amount = quote_amount * truncated_base_amount / base_amount
 
         # For the quote amount we simply round.
-        if (quote_amount := balance_updates.get(pair.quote_symbol)) is not None:
+        if quote_amount is not None:
             balance_updates[pair.quote_symbol] = core_helpers.round_decimal(quote_amount, pair_info.quote_precision)
 
         balance_updates.prune()
